@@ -151,6 +151,13 @@ fn candidates(w: &World, p: &Plan) -> Vec<(World, Plan)> {
         }
     }
     for i in 0..w.files.len() {
+        if w.files[i].block_comments != 0 {
+            let mut c = w.clone();
+            c.files[i].block_comments = 0;
+            out.push((c, p.clone()));
+        }
+    }
+    for i in 0..w.files.len() {
         if w.files[i].spelling != 0 {
             let mut c = w.clone();
             c.files[i].spelling = 0;
